@@ -461,6 +461,16 @@ func checkSampler(c statCase, o *kit.Obs) error {
 			return fmt.Errorf("%d samples fall in the cells where the reported density predicts at most %.3g in total; lobes %s", res.poolObs, upper, describe(d.lobes))
 		}
 	}
+	// margin of the statistical alarm on this tree (the alarm needs z > 6.5)
+	switch {
+	case res.k == 0:
+	case res.z < 2:
+		o.Label("z:<2")
+	case res.z < 4:
+		o.Label("z:2..4")
+	default:
+		o.Label("z:>=4")
+	}
 	if res.k > 0 && res.z > zAlarm && res.effect > effectFloor {
 		wc := res.worst
 		return fmt.Errorf("sampler and reported density disagree: chi-square %.1f on %d cells (z = %.1f, divergence %.2g) with %d samples; worst cell #%d (polar bin %d, azimuth bin %d): observed %d, expected %.1f; lobes %s",
